@@ -35,6 +35,8 @@ type Field struct {
 
 type Range struct {
 	Lo, Hi int // inclusive
+	// Options of an extension range declaration (`extensions 1 to 9 [(x) = 1];`); unused for reserved ranges.
+	Options []Opt `json:"opts,omitempty"`
 }
 
 type Message struct {
